@@ -36,6 +36,22 @@ let () =
                 Printf.printf "C %d %d %d x%s\n" (i_of_n a) (i_of_n b) (if inl then 1 else 0) (hex_of_chars t)
             | Reader.RCpp (t, a, b) -> Printf.printf "P %d %d %s\n" (i_of_n a) (i_of_n b) (hex_of_chars t)) items;
           Printf.printf "END\n%!"
+      | "IN" :: nfiles :: main ->
+          (* IN <nfiles> <main items...> ; then nfiles lines "<id> <items...>" ; items: s<n> or i<f> *)
+          let rec nat_of_int n = if n <= 0 then Datatypes.O else Datatypes.S (nat_of_int (n - 1)) in
+          let rec int_of_nat = function Datatypes.O -> 0 | Datatypes.S k -> 1 + int_of_nat k in
+          let item s = if s.[0] = 's' then Include.AStmt (nat_of_int (int_of_string (String.sub s 1 (String.length s - 1))))
+                       else Include.AInc (nat_of_int (int_of_string (String.sub s 1 (String.length s - 1)))) in
+          let items l = Stdlib.List.map item (Stdlib.List.filter (fun x -> x <> "") l) in
+          let files = Stdlib.List.init (int_of_string nfiles) (fun _ ->
+            match String.split_on_char ' ' (input_line stdin) with
+            | id :: its -> (int_of_string id, items its)
+            | [] -> (-1, [])) in
+          let fs f = Stdlib.List.assoc_opt (int_of_nat f) files in
+          let out = Include.aread (nat_of_int 3000) fs [ { Include.a_fifo = []; Include.a_src = items main } ] in
+          Printf.printf "%s\n%!" (String.concat " " (Stdlib.List.map (function
+            | Include.AStmt n -> "s" ^ string_of_int (int_of_nat n)
+            | Include.AInc f -> "i" ^ string_of_int (int_of_nat f)) out))
       | ["DT"; n] ->
           let n = int_of_string n in
           let lines = Stdlib.List.init n (fun _ -> chars_of_hex (input_line stdin)) in
